@@ -122,6 +122,7 @@ inductive Act
   | on (mode : Mode) (d : Nat) (excl : Bool) (trigs : List Trig)
   | withT (mode : Mode) (s : Nat) (trigs : List Trig)
   | once (d : Nat) (trigs : List Trig)
+  | onceFn (d : Nat) (trigs : List Trig)
   | revoke (s : Nat) (trigs : List Trig)
   | run (s : Nat)
   | sysEvent (s ty pid : Nat)
@@ -196,6 +197,7 @@ inductive Ev
   | insNoop (e ty : Nat)                -- ghost: an insertion reaction was requested for an entity without the component
   | misclaim (sys : Nat)                -- ghost: a tracker `start` claimed metadata prepared by another command
   | canary (sys : Nat)
+  | noCanary (sys : Nat)                 -- ghost: the state of a zero-sized system function is dropped (nothing observable)
   | applied (sys : Nat)
   | abortNoEntity (sys : Nat)
   | abortNoStorage (sys : Nat)
@@ -239,6 +241,7 @@ structure SysInfo where
   defn : Nat := 0
   excl : Bool := false
   once : Option (List Trig) := none      -- `once` wrapper with its revoke token
+  zst : Bool := false                     -- made from a zero-sized function item (nothing is dropped visibly with it)
   onceTaken : Bool := false
   nruns : Nat := 0                        -- number of bodies started (the `Local` counter)
 deriving DecidableEq, Repr, Inhabited
